@@ -62,22 +62,20 @@ def _format_text(arg):
 
 
 def fmts(fnode, meth):
-    """Formats written (meth='strftime') or parsed (meth='strptime') below ``fnode``.  ``<date>.fromisoformat(x)`` parses
-    exactly %Y-%m-%d and counts as such; the datetime form accepts a family of layouts and is not modelled (AnalysisError)."""
+    """Formats written (meth='strftime') or parsed (meth='strptime') below ``fnode``.  ``<...>.date.fromisoformat(x)``
+    parses exactly %Y-%m-%d and counts as such; so does ``.isoformat()`` in a class whose values are plain dates
+    (CalendarDate...).  The datetime forms of both accept / produce a family of layouts and are not counted."""
     out = []
+    q = _RESOLVE["cls"] or ""
     for c in ast.walk(fnode):
         if not (isinstance(c, ast.Call) and isinstance(c.func, ast.Attribute)):
             continue
         if c.func.attr == meth and c.args:
             out.append(_format_text(c.args[-1]))
-        elif meth == "strptime" and c.func.attr == "fromisoformat":
-            recv = norm(c.func.value)
-            if recv.split(".")[-1] == "date":
-                out.append("%Y-%m-%d")
-            else:
-                raise AnalysisError("`%s` parses a family of layouts the format comparison does not model" % norm(c)[:80])
-        elif meth == "strftime" and c.func.attr == "isoformat":
-            raise AnalysisError("`%s` writes a layout that depends on the runtime type of the value; the format comparison does not model it" % norm(c)[:80])
+        elif meth == "strptime" and c.func.attr == "fromisoformat" and norm(c.func.value).split(".")[-1] == "date":
+            out.append("%Y-%m-%d")
+        elif meth == "strftime" and c.func.attr == "isoformat" and not c.args and not c.keywords and "CalendarDate" in q.rsplit(".", 1)[-1]:
+            out.append("%Y-%m-%d")
     return out
 
 
